@@ -20,7 +20,7 @@ from haiway.helpers.caching import cache  # noqa: E402
 ID = "C13"
 TECHNIQUE = "stateless schedule exploration (DFS, prefix replay) of caller starts / cancellations / invocation completions / expiry on the real async cache, reference LRU of in-flight invocations"
 RULE = (
-    "2..4 caller tasks over 1..2 keys (cached function and cached method), limit 1..2, expiration none/2, invocation outcome value/"
+    "2..4 caller tasks over 1..2 keys (5 callers over 3 keys with limit 2 in one sub-family) (cached function and cached method), limit 1..2, expiration none/2, invocation outcome value/"
     "exception, up to 2 cancellations, one or two clock advances (entries expiring at different instants); all interleavings of "
     "{start next caller, cancel caller, complete invocation, advance clock}, with and without two "
     "events in one loop iteration; non-trivial = at least two callers shared one invocation or a "
@@ -51,6 +51,7 @@ class Produced:
 
 def programs(tier: str):
     yield from _five(tier)
+    yield from _three_keys(tier)
     yield from _wrapped(tier)
     b = BOUNDS[tier]
     for n in b["callers"]:
@@ -98,6 +99,13 @@ def _five(tier: str):
     for keys in ("ababb", "abaab") if tier == "quick" else ("ababb", "abaab", "abbab", "aabab"):
         for variant in ("function", "method"):
             yield {"keys": keys, "limit": 2, "expiration": 2, "outcome": "value", "cancels": 0, "batch": 1, "variant": variant, "instant": True}
+
+
+def _three_keys(tier: str):
+    # three keys with limit 2: refreshing an expired key while another one is still valid and a
+    # third one arrives - the refreshed (in-flight) entry is the most recently used one
+    for keys in ("abaca",) if tier == "quick" else ("abaca", "abcab", "abaac"):
+        yield {"keys": keys, "limit": 2, "expiration": 2, "outcome": "value", "cancels": 0, "batch": 1, "variant": "function", "adv2": True}
 
 
 def explore_config(tier: str, program) -> dict:
@@ -193,7 +201,7 @@ def execute(program, ch: Chooser) -> Result:  # noqa: C901, PLR0912, PLR0915
         tasks: list[asyncio.Task] = []
         # two small advances (1.25 each, expiration 2): entries created at different instants
         # can expire at different instants; never exactly on the boundary
-        adv = {"left": (2 if (len(keys) <= 3 or program.get("instant")) and program["cancels"] <= 1 and program["batch"] == 1 else 1) if expiration is not None else 0}
+        adv = {"left": (2 if (len(keys) <= 3 or program.get("instant") or program.get("adv2")) and program["cancels"] <= 1 and program["batch"] == 1 else 1) if expiration is not None else 0}
         step = 1.25 if adv["left"] == 2 else 3.0
 
         def extra():
